@@ -33,7 +33,7 @@ BITS = {"B": 8, "H": 16, "I": 32, "Q": 64, "b": 8, "h": 16, "i": 32, "q": 64}
 
 
 def plan(tier, seed):
-    n = 25 if tier == "quick" else 500
+    n = 120 if tier == "quick" else 600
     return [dict(seed=seed, shard=i, n=n) for i in range(16)]
 
 
